@@ -90,7 +90,7 @@ def _annotated_keywords(realm):
         from apischema import schema
         from apischema.typing import Annotated
 
-        Score = Annotated[int, schema(min=0, examples=[1, 2], title="score", description="d", deprecated=True)]
+        Score = Annotated[int, schema(min=0, examples=(1, 2), title="score", description="d", deprecated=True)]
 
         @dataclass
         class Ann1:
